@@ -977,6 +977,7 @@ func (s *Store[K, V]) Wait() {
 func (s *Store[K, V]) Recover(version uint64, reader io.Reader) error {
 	blockDecoder := gob.NewDecoder(reader)
 	block := &DataBlock[any]{}
+	metaSeen := false
 	s.policyMu.Lock()
 	defer s.policyMu.Unlock()
 	for {
@@ -994,6 +995,12 @@ func (s *Store[K, V]) Recover(version uint64, reader io.Reader) error {
 		}
 
 		reader := bytes.NewReader(block.Data)
+		// The metadata block must come first: nothing may be loaded, and the stream must
+		// not be accepted, before the version is checked and the clock origin adopted.
+		// (A block's Type is not covered by its checksum.)
+		if !metaSeen && block.Type != 1 {
+			return errors.New("metadata block missing")
+		}
 		if block.Type == 255 {
 			break
 		}
@@ -1008,6 +1015,7 @@ func (s *Store[K, V]) Recover(version uint64, reader io.Reader) error {
 			if m.Version != version {
 				return VersionMismatch
 			}
+			metaSeen = true
 			s.timerwheel.clock.SetStart(m.StartNano)
 			s.policy.sketch.EnsureCapacity(uint(m.Total))
 		case 2: // window lru
